@@ -9,6 +9,7 @@ mod asm;
 mod fakebtc;
 mod hist;
 mod obs;
+mod pre;
 mod props;
 mod report;
 mod rng;
@@ -79,6 +80,18 @@ fn main() {
             let id = args.get(2).expect("property id").clone();
             let file = args.get(3).expect("replay file").clone();
             std::process::exit(props::replay(&id, &file));
+        }
+        "golden-gen" => {
+            // deliberate regeneration of the pinned digests (never called by a registered command)
+            let exe = std::env::current_exe().unwrap();
+            let mut kids = Vec::new();
+            for i in 0..3 {
+                let out = report::out_dir().join(format!("golden-gen-{}.json", i));
+                kids.push(Command::new(&exe).args(["worker", "C02", "quick", "0", &i.to_string(), "3", out.to_str().unwrap(), "golden-gen"]).spawn().unwrap());
+            }
+            for mut k in kids {
+                let _ = k.wait();
+            }
         }
         "smoke" => {
             props::smoke::run();
